@@ -87,7 +87,23 @@ func genTrees(n int) []*memfs.Node {
 	}
 	var trees []*memfs.Node
 	for _, f := range forests(n, 0) {
-		trees = append(trees, (&memfs.Node{Kind: memfs.Dir, Children: f}).Clone())
+		t := (&memfs.Node{Kind: memfs.Dir, Children: f}).Clone()
+		// the same relative path has a different mode and size in different sub-trees: f4.pkg is
+		// executable and longer only directly under a directory named "a" (sub-trees become scan roots)
+		var rec func(n *memfs.Node, inA bool)
+		rec = func(n *memfs.Node, inA bool) {
+			for _, c := range n.Children {
+				if c.Kind == memfs.File && c.Name == "f4.pkg" && inA {
+					c.Perm = 0o755
+					c.Data = "X 0 padded"
+				}
+				if c.Kind == memfs.Dir {
+					rec(c, c.Name == "a")
+				}
+			}
+		}
+		rec(t, false)
+		trees = append(trees, t)
 	}
 	return trees
 }
@@ -177,7 +193,24 @@ func mkExtractors() []filesystem.Extractor {
 		Out: func(e *scankit.Ex, in *filesystem.ScanInput, data []byte, _ error) (inventory.Inventory, error) {
 			return inventory.Inventory{Packages: []*extractor.Package{{Name: "T", Version: "1", Locations: []string{"fixed"}, Metadata: &meta{in.Path}}}}, nil
 		}}
-	return []filesystem.Extractor{eA, eB, eC}
+	// ex-d: packages with SEVERAL locations that arrive unsorted; the two packages tie on name,
+	// version and extractor, and their order under sorted locations ([aa/.. zz/..] < [mm/..]) is the
+	// opposite of their order under the arrival order ([zz/.. aa/..] > [mm/..])
+	eD := &scankit.Ex{N: "ex-d", Req: func(api filesystem.FileAPI) bool { return strings.HasSuffix(api.Path(), "f1.pkg") || strings.HasSuffix(api.Path(), "f3.pkg") },
+		Out: func(e *scankit.Ex, in *filesystem.ScanInput, data []byte, _ error) (inventory.Inventory, error) {
+			locs := []string{"mm/" + in.Path}
+			if strings.HasSuffix(in.Path, "f1.pkg") {
+				locs = []string{"zz/" + in.Path, "aa/" + in.Path}
+			}
+			return inventory.Inventory{Packages: []*extractor.Package{{Name: "M", Version: "1", Locations: locs}}}, nil
+		}}
+	// ex-x: requires executables only, i.e. its FileRequired calls Stat() (lazy, cached by the walker)
+	eX := &scankit.Ex{N: "ex-x", Req: func(api filesystem.FileAPI) bool {
+		return strings.HasSuffix(api.Path(), ".pkg") && scankit.ReqExec(api)
+	}, Out: func(e *scankit.Ex, in *filesystem.ScanInput, data []byte, _ error) (inventory.Inventory, error) {
+		return inventory.Inventory{Packages: []*extractor.Package{{Name: "exec", Version: fmt.Sprint(in.Info.Size()), Locations: []string{in.Path}}}}, nil
+	}}
+	return []filesystem.Extractor{eA, eB, eC, eD, eX}
 }
 
 func adv(ref string) *detector.Advisory {
@@ -303,7 +336,18 @@ func main() {
 	scankit.Quiet()
 	r := ev.Start("C08", "exploration", 3*time.Minute, 30*time.Minute)
 	maxNodes := ev.Pick(r, 5, 6)
-	exPerms := memfs.Permutations(3)
+	// 10 of the 120 orders of the 5 extractors: every rotation of the canonical order and of its
+	// reverse, so that every pair of extractors occurs in both relative orders and every
+	// extractor occurs in every position
+	var exPerms [][]int
+	for rot := 0; rot < 5; rot++ {
+		var a, b []int
+		for i := 0; i < 5; i++ {
+			a = append(a, (i+rot)%5)
+			b = append(b, (4-i+rot)%5)
+		}
+		exPerms = append(exPerms, a, b)
+	}
 	detPerms := memfs.Permutations(2)
 	completed := -1
 	for n := 1; n <= maxNodes && !r.Expired(); n++ {
@@ -417,5 +461,5 @@ func main() {
 	}
 	r.Set("bound", map[string]any{"max_nodes_completed": completed})
 	r.Assume("Go map iteration order itself cannot be controlled; its consequence (the order of the extractor/detector lists) is enumerated instead")
-	r.Finish(fmt.Sprintf("every tree with <=%d nodes over {dir a, dir b, f1.pkg..f4.pkg with tying contents} x every combination of per-directory listing permutations x 6 extractor-list orders x 2 detector-list orders, all compared with the canonical-order scan of the same tree (key sequences, full multisets, statuses) + sortedness; plus every ordered selection of 2..3 roots among the top-level sub-trees and the whole tree vs the union of single-root scans. non-trivial = (tree, listing vector) with >=2 packages and a directory with >=2 entries, or a multi-root selection with >=1 package", maxNodes), completed == maxNodes)
+	r.Finish(fmt.Sprintf("every tree with <=%d nodes over {dir a, dir b, f1.pkg..f4.pkg with tying contents} x every combination of per-directory listing permutations x 10 extractor-list orders (all rotations of the canonical order and of its reverse) x 2 detector-list orders, all compared with the canonical-order scan of the same tree (key sequences, full multisets, statuses) + sortedness; plus every ordered selection of 2..3 roots among the top-level sub-trees and the whole tree vs the union of single-root scans. non-trivial = (tree, listing vector) with >=2 packages and a directory with >=2 entries, or a multi-root selection with >=1 package", maxNodes), completed == maxNodes)
 }
